@@ -46,7 +46,7 @@ DecReq(d, j) ==
            IF d.kind = "asm"
            THEN [q |-> "fext", forces |-> Fn([k \in 1..Len(j.forces) |-> Forces(j.forces[k])]),
                  forcesInc |-> Fn([k \in 1..Len(j.forcesInc) |-> Forces(j.forcesInc[k])]), inc |-> InRat(j.inc)]
-           ELSE [q |-> "fext", forces |-> Fn([k \in 1..Len(j.forces) |->
+           ELSE [q |-> "fext", skin |-> Forces(j.skin), forces |-> Fn([k \in 1..Len(j.forces) |->
                      [base |-> Forces(j.forces[k].base), flange |-> Forces(j.forces[k].flange)]])]
 
 IsVecQ(q) == q \in {"fext", "fint", "fint_part"}
